@@ -2,10 +2,10 @@ package main
 
 import (
 	"fmt"
-	"regexp"
 	"go/constant"
 	"go/token"
 	"go/types"
+	"regexp"
 	"sort"
 	"strings"
 
